@@ -72,7 +72,7 @@ def run(ctx):
     ctx.expect_ok(r, 'ScgfOrder L2 refines L1')
     # 2. programs: TLC-enumerated (including rate-invalid ones), simulated long ones, seeded random ones with
     #    width-first / multi-output / list arguments, invalid inputs, every name length, long chains
-    with ThreadPoolExecutor(max_workers=4) as ex:
+    with ThreadPoolExecutor(max_workers=5) as ex:
         f1 = ex.submit(lambda: sp.tlc_programs(ctx, 'bad2' if thorough else 'badS', timeout=1500, workers=8,
                                                label='rate-valid and rate-invalid programs'))
         f2 = ex.submit(lambda: sp.tlc_programs(ctx, 'long', simulate='num=%d' % (1500 if thorough else 120), depth=30,
@@ -82,7 +82,10 @@ def run(ctx):
         # output units with channel arrays: every class, every position, flat and nested (valid and invalid)
         f4 = ex.submit(lambda: sp.tlc_programs(ctx, 'arrM' if thorough else 'arrS', timeout=1500, workers=4,
                                                label='output units with channel arrays'))
-        progs = f1.result() + f2.result() + f3.result() + f4.result()
+        # units whose rate requirement covers several inputs: every combination of rates at the checked positions
+        f5 = ex.submit(lambda: sp.tlc_programs(ctx, 'nS', timeout=1500, workers=4,
+                                               label='units with multi-input rate requirements'))
+        progs = f1.result() + f2.result() + f3.result() + f4.result() + f5.result()
     for i, p in enumerate(progs):
         p['name'] = '%s_%d' % (p['name'], i)
     ntlc = len(progs)
@@ -97,6 +100,9 @@ def run(ctx):
     narr = 4000 if thorough else 400
     for i in range(narr):
         progs.append(sp.array_sink_program(rnd, 'arr%d' % i))
+    nchk = 4000 if thorough else 500
+    for i in range(nchk):
+        progs.append(sp.rate_check_program(rnd, 'chk%d' % i, multi_only=(i % 2 == 0)))
     names = name_programs()
     progs += names
     sizes = [300, 450, 600, 800] * 4 if thorough else [120, 200, 300]
